@@ -1,6 +1,7 @@
 import Gsu.Util.QParse
 import Gsu.Model.QCursor
-open Gsu.Proto Gsu.QVal Gsu.QExpr Gsu.Qry Gsu.QParse Gsu.QCursor
+import Gsu.Model.QKeys
+open Gsu.Proto Gsu.QVal Gsu.QExpr Gsu.Qry Gsu.QParse Gsu.QCursor Gsu.QKeys
 
 def parseOps (s : String) : Option (List (Option Bool)) :=
   allSome (s.toList.map fun c =>
@@ -14,6 +15,26 @@ def parseSels (s : String) : Option (List (Col × Val)) :=
       | _, _ => none
     | _ => none) s
 
+/-- the schema keys: `-` or `id=key/key;id=…`, a key is a column list (`-`: the empty key) -/
+def parseDecl (s : String) : Option (List (Nat × List (List Col))) :=
+  if s = "-" then some [] else
+  allSome ((s.splitOn ";").map fun p => match p.splitOn "=" with
+    | [id, ks] => match parseNat id, allSome ((ks.splitOn "/").map parseCols) with
+      | some id, some ks => some (id, ks)
+      | _, _ => none
+    | _ => none)
+
+/-- canonical text of a list of keys: columns of a key sorted, keys sorted as text -/
+def showKeys (ks : List (List Col)) : String :=
+  "/".intercalate (sortStrs (ks.map fun k =>
+    if k.isEmpty then "-" else ",".intercalate ((sortNats k).map toString)))
+
+/-- canonical text of fixed values: `col:v|v;…`, values and entries sorted as text -/
+def showFixed (fx : Gsu.QFixed.Fixed) : String :=
+  if fx.isEmpty then "-" else
+  ";".intercalate (sortStrs (fx.map fun f =>
+    toString f.1 ++ ":" ++ "|".intercalate (sortStrs (f.2.map showVal))))
+
 def showIdx : Option Nat → String
   | none => "-"
   | some i => toString i
@@ -24,6 +45,8 @@ def showIdx : Option Nat → String
   select <sels> <query>               → the matching rows of the query as written (canonical)
   lookup <sels> <query>               → the matching row, or `-`
   sorted <rev> <cols> <row>*          → t|f : the rows (values of cols, comma separated) are in order
+  keys <decl> <query>                 → `keysQ` of the query as written, given the schema keys (canonical)
+  fixed <query>                       → `fixedQ` of the query as written (canonical)
 -/
 def step (db : Db) (l : List String) : Db × String :=
   match l with
@@ -52,6 +75,16 @@ def step (db : Db) (l : List String) : Db × String :=
     | some rev, some t =>
       let le := fun x y => if rev then rowCmp t.cols x y != .lt else rowCmp t.cols x y != .gt
       (db, showBool (sortRows le t.rows == t.rows || (t.rows.zip (t.rows.drop 1)).all fun p => le p.1 p.2))
+    | _, _ => (db, "bad-op")
+  | "fixed" :: toks =>
+    match parseQuery (toks.length + 1) toks with
+    | some (q, []) => (db, showFixed (Gsu.QFixed.fixedQ db q))
+    | _ => (db, "bad-op")
+  | "keys" :: decl :: toks =>
+    match parseDecl decl, parseQuery (toks.length + 1) toks with
+    | some decl, some (q, []) =>
+      let declared := fun id => match decl.lookup id with | some ks => ks | none => []
+      (db, showKeys (keysQ db declared q))
     | _, _ => (db, "bad-op")
   | _ => (db, "bad-op")
 
